@@ -195,7 +195,8 @@ Path: {self.root_fingerprint.hex()}:{self.root_path}
     def parse(cls, key, s, network=None):
         hd_key = cls.raw_parse(BytesIO(key[1:]))
         hd_key.__class__ = cls
-        hd_key.add_raw_path_data(read_varstr(s), network=network)
+        # without an explicit network the xpub's own version bytes decide, not its path
+        hd_key.add_raw_path_data(read_varstr(s), network=network or hd_key.network)
         return hd_key
 
     @classmethod
